@@ -1541,7 +1541,14 @@ class Interp:
                 return None
             if base.fields.get('__open__'):
                 return T('attr', self.termify(base), name)
-            raise AbsRaise(T('exc', 'AttributeError', name))
+            if base.fields.get('__closed__') or '__hasattr__' in \
+                    base.fields or name.startswith('__'):
+                # a stand-in whose attribute set is part of the scenario
+                raise AbsRaise(T('exc', 'AttributeError', name))
+            # a stand-in built by a rule models only what the rule expected
+            # the code to use: anything else is unknown, not absent
+            raise Inexact('attribute %s of the stand-in %s is not modelled'
+                          % (name, base.label))
         if isinstance(base, NTupleV):
             r = self.ntuple_attr(base, name)
             if r is not None:
